@@ -68,6 +68,7 @@ protected:
 
 protected:
   [[nodiscard]] bool IsCached(CacheIndex index) const;
+  [[nodiscard]] bool IsCacheFull() const noexcept;
   [[nodiscard]] const StructuredData& GetCache(CacheIndex index) const;
   const StructuredData& SaveCache(CacheIndex index, StructuredData value) const;
 };
@@ -99,6 +100,7 @@ private:
     std::vector<SDIterator> itemIterators{};
     bool isCompleted{ true };
     uint32_t counter{ 0 };
+    mutable StructuredData current{};
 
   public:
     explicit Iterator(const SDPowerSet& boolean, bool isCompleted = false) noexcept;
@@ -152,6 +154,7 @@ private:
     std::vector<SDIterator> componentIters{};
     bool isCompleted{ true };
     uint32_t counter{ 0 };
+    mutable StructuredData current{};
 
   public:
     explicit Iterator(const SDDecartian& base, bool isCompleted = false);
